@@ -65,6 +65,9 @@ type Kernel struct {
 	SGPR int    `json:"sgpr"` // WFSgprCount
 	VGPR int    `json:"vgpr"` // WIVgprCount
 	LDS  int    `json:"lds"`  // GroupSegmentByteSize
+	// DynLDS: local memory passed as kernel arguments (driver.LocalPtr): the dispatch packet's
+	// GroupSegmentSize is LDS + DynLDS. A full group still fits the empty target CU with it.
+	DynLDS int `json:"dyn_lds,omitempty"`
 	// work-group filter as the driver builds it for unified multi-GPU
 	// launches: flattened work-group ids in [FilterLo, FilterHi); none if
 	// FilterHi == 0
@@ -193,7 +196,7 @@ func validate(c Case) error {
 		if k.WG[0]*k.WG[1]*k.WG[2] > 1024 {
 			return fmt.Errorf("kernel %d: work-group larger than 1024 items", i)
 		}
-		if k.SGPR < 0 || k.VGPR < 0 || k.LDS < 0 || k.Gap < 0 || len(k.Delays) == 0 {
+		if k.SGPR < 0 || k.VGPR < 0 || k.LDS < 0 || k.DynLDS < 0 || k.LDS+k.DynLDS > 64*1024 || k.Gap < 0 || len(k.Delays) == 0 {
 			return fmt.Errorf("kernel %d: malformed", i)
 		}
 		nx, ny, nz := k.numWG()
@@ -337,6 +340,15 @@ func genKernel(t *rapid.T, cus []CUConf) Kernel {
 			si--
 		default:
 			li--
+		}
+	}
+	if rapid.IntRange(0, 3).Draw(t, "dynlds") == 0 {
+		room := 64*1024 - k.LDS
+		if !target.Unlimited {
+			room = target.LDSUnits*256 - ceilDiv(k.LDS, 256)*256
+		}
+		if room >= 256 {
+			k.DynLDS = 256 * rapid.IntRange(1, room/256).Draw(t, "dynldsunits")
 		}
 	}
 	// grid
@@ -581,7 +593,7 @@ func runOnce(c Case) (res stats.Result) {
 		st.packet = &kernels.HsaKernelDispatchPacket{
 			WorkgroupSizeX: uint16(k.WG[0]), WorkgroupSizeY: uint16(k.WG[1]), WorkgroupSizeZ: uint16(k.WG[2]),
 			GridSizeX: uint32(k.Grid[0]), GridSizeY: uint32(k.Grid[1]), GridSizeZ: uint32(k.Grid[2]),
-			GroupSegmentSize: uint32(k.LDS),
+			GroupSegmentSize: uint32(k.LDS + k.DynLDS),
 			KernelObject:     0x1000 * uint64(i+1),
 		}
 		kst[i] = st
@@ -1161,6 +1173,12 @@ func judge(c Case, freq sim.Freq, plog *eventLog, proc *cp.CommandProcessor, drv
 
 	// --- classification
 	labels := []string{"alg:" + c.Alg}
+	for _, k := range c.Kernels {
+		if k.DynLDS > 0 {
+			labels = append(labels, "kernel-with-local-memory-arguments")
+			break
+		}
+	}
 	switch {
 	case c.Dispatchers == 1:
 		labels = append(labels, "dispatchers:1")
